@@ -20,6 +20,7 @@ from .srcmodel import AnalysisError, short
 from .terms import Const, Fin, Opaque, Space, Term
 
 BASE = "7.5"  # the base score the token's scores() reports
+OTHER_SCORES = ["6.5", "8.1"]  # its temporal and environmental scores (v2, v3)
 
 
 def rh_inputs(ctx, v):
@@ -38,7 +39,7 @@ def rh_inputs(ctx, v):
     missing = pre + "/".join(body.split("/")[:-1])
     scores = [
         (BASE, "same"), ("7.50", "same"), (" 7.5", "same"), ("7.5 ", "same"), ("+7.5", "same"), ("07.5", "same"), ("75e-1", "same"), ("7.50000000000000000000001", "same"),
-        ("7.4", "other"), ("7.6", "other"), ("8", "other"), ("0", "other"), ("-7.5", "other"), ("nan", "other"), ("inf", "other"), ("7.5000001", "other"),
+        ("7.4", "other"), ("7.6", "other"), ("6.5", "other"), ("8.1", "other"), ("8", "other"), ("0", "other"), ("-7.5", "other"), ("nan", "other"), ("inf", "other"), ("7.5000001", "other"),
         ("", "bad"), (" ", "bad"), ("abc", "bad"), ("7,5", "bad"), ("7.5.0", "bad"), ("7.5a", "bad"), ("CVSS", "bad"), ("0x7", "bad"), ("snan", "bad"), ("nan123", "bad"),
     ]
     out = []
@@ -86,6 +87,7 @@ class RHSemantics(object):
         ev.event_dom = True
         ev.method_hook = self.method_hook
         ev.attr_hook = self.attr_hook
+        ev.regex_on_tables = True
         self.faults = []
         st = ev.new_state()
         st.dom["rh"] = self.strings
@@ -152,6 +154,9 @@ class RHSemantics(object):
             return None
         if name == "base_score":
             return Const(Dec(Fraction(BASE), BASE))
+        if name in ("temporal_score", "environmental_score") and self.v != 4:
+            x = OTHER_SCORES[0 if name == "temporal_score" else 1]
+            return Const(Dec(Fraction(x), x))
         if name in ("temporal_score", "environmental_score", "vector", "metrics", "original_metrics"):
             return Opaque("attr:" + name)
         return None
@@ -166,7 +171,8 @@ class RHSemantics(object):
             return None
         if name == "scores" and not args and not kwargs:
             n = 1 if self.v == 4 else 3
-            return TupleVal([Const(Flt(Fraction(BASE), BASE))] + [Opaque("score%d" % i) for i in range(1, n)])
+            # temporal / environmental scores of the object: concrete numbers different from the base score
+            return TupleVal([Const(Flt(Fraction(x), x)) for x in ([BASE] + OTHER_SCORES)[:n]])
         if name in ("base_score",):
             return None
         raise AnalysisError("C12.sem", "method %s of the constructed object is not modelled here" % name, node, module)
